@@ -296,7 +296,7 @@ func cases(tier string) []func(time.Time) drv.Result {
 
 func main() {
 	drv.Main(drv.Property{
-		ID: "C18", Level: "model_checking", PanicIsViolation: true, MemLimitGB: 4,
+		ID: "C18", Level: "model_checking", PanicIsViolation: true, MemLimitGB: 8,
 		Rule:        "one case = (order: ord.Int, reversed ord.From, ord.String) x universe (3 keys, 2 values, node heights 1..3, plus 4 keys x heights 1..2, 4 keys x heights 1..3 under ord.Int and 2 keys x heights 1..8 in quick; 4 keys and heights 1..4, 5 keys x heights 1..3, 3 keys x heights 1..6 in thorough); breadth-first search over ALL reachable states, a state being the complete object graph of the list obtained by reflection inside the staged package (every field of the list and of each node, unexported and future ones included, pointers normalised to discovery order) - the concrete state, so merging is exact even if a change adds hidden state such as a lookup cache; every transition = one Put(k,v,height) / Get(k) / Remove(k) executed on a fresh real list after replaying the shortest history; node heights are an enumerated choice (scripted rand.Source installed through a seam file added to the staged copy)",
 		Assumptions: []string{"the seam file added to the staged copy of internal/maplike/skiplist only replaces the list's rand.Source", "larger universes / longer random histories are not sampled (outside this family)"},
 		Cases: func(tier string) (int, func(int) string) {
